@@ -87,9 +87,10 @@ def stringLoop (inp : Input) : Nat → Nat → Bool → Nat × Nat
       let b := byteAt inp pos
       if b == 32 || b == 9 then stringLoop inp fuel (pos + 1) false
       else if b == 0 then (pos + 1, pos + 1)
-      else if b == 34 || b == 13 || b == 10 then
+      else if b == 34 then
         if escaped then stringLoop inp fuel (pos + 1) false
         else (pos, pos + 1)
+      else if b == 13 || b == 10 then (pos, pos + 1)      -- a line terminator ends the string, escaped or not
       else if b == 92 then stringLoop inp fuel (pos + 1) (!escaped)
       else stringLoop inp fuel (pos + 1) false
     else (pos, pos)
